@@ -106,15 +106,20 @@ def concretise_chunks(abs_chunks, rng, nsym=6, small=True):
             elif pl == 'rcend':
                 # same symbols, but the range coder does not end with code == 0: change the last byte until the independent
                 # decoder says exactly that about this chunk
-                done = False
                 base = b"".join(parts)
-                for delta in (1, 2, 3, 5, 8, 16, 64, 128, 255, 254, 7, 11):
-                    cand = dict(c, payload=c['payload'][:-1] + bytes([(c['payload'][-1] + delta) & 0xFF]))
-                    r = gl2.decode(base + gl2.write_chunk(cand) + b"\x00", 4096, collect=None)
-                    if r.status == 'error:chunk:rc_end':
-                        c = cand; done = True; break
-                if not done:
-                    raise RuntimeError("could not build a chunk with a dirty range coder end")
+                clean = gl2.decode(base + gl2.write_chunk(c) + b"\x00", 4096, collect=None)
+                if clean.status != 'ok':
+                    # the chunk is rejected before its payload matters (invalid context): any change of the last byte will do
+                    c = dict(c, payload=c['payload'][:-1] + bytes([c['payload'][-1] ^ 1]))
+                else:
+                    done = False
+                    for delta in list(range(1, 256)):
+                        cand = dict(c, payload=c['payload'][:-1] + bytes([(c['payload'][-1] + delta) & 0xFF]))
+                        r = gl2.decode(base + gl2.write_chunk(cand) + b"\x00", 4096, collect=None)
+                        if r.status == 'error:chunk:rc_end':
+                            c = cand; done = True; break
+                    if not done:
+                        raise RuntimeError("could not build a chunk with a dirty range coder end")
                 chunks[len(parts)] = c
         b = gl2.write_chunk(c)
         parts.append(b)
